@@ -200,7 +200,21 @@ def run(ctx, rep):
                 rep.violation(sig, f"`N = {e}`: compile-time {r.get('type')}, run time {r.get('runtime') or r.get('exc')}", {"expr": e})
     exprs = []
     seen = set()
-    while len(exprs) < ctx.n(600, 30000):
+    # every comparison operator on every numerically equal / adjacent mixed pair, both operand orders (each arm of the
+    # compile-time comparison table is separate code)
+    for n in (0, 1, 2, 7, -1, -2, -7, 2**31, -(2**31), 2**53):
+        for m in (n, n + 1):
+            for op in ("<", "<=", ">", ">=", "==", "!="):
+                a = str(n) if n >= 0 else f"({n})"
+                b = f"{abs(m)}.0" if m >= 0 else f"(-{abs(m)}.0)"
+                if op in ("==", "!="):
+                    continue    # Float has no `==` in Erg
+                for e in (f"({a} {op} {b})", f"({b} {op} {a})", f"(({a} - 0) {op} {b})"):
+                    if e not in seen:
+                        seen.add(e)
+                        exprs.append(e)
+    n_fixed = len(exprs)
+    while len(exprs) - n_fixed < ctx.n(600, 30000):
         e = gen_expr(rng)
         if e not in seen:
             seen.add(e)
